@@ -131,7 +131,8 @@ def main(seed, tier):
         for n in lengths:
             for rounds in round_set if n in (15, 16, 32) else round_set[:1]:
                 entries = gen_entries(rng, n)
-                pw = rng.choice(["password", "pässwörd", "p w", "x" * 70, ""])
+                # passphrases are used as given (UTF-8 of the exact code points): composed and decomposed spellings are different passphrases
+                pw = rng.choice(["password", "pässwörd", "p w", "x" * 70, "", "cafe\u0301 Zu\u0308rich", "caf\u00e9", "\ufb01le\u2460", " Pass "])
                 salt = rng.randbytes(rng.choice([0, 1, 8, 16, 33]))
                 plain, pairs, blob, data_blob, match_at = build(combo, entries, pw, rounds, salt, n_decoys=rng.choice([0, 1, 2, 3]))
                 text = vmx_text(pairs, data_blob, plain)
@@ -153,11 +154,15 @@ def main(seed, tier):
                 evals += 1
                 if out2 != "ok" or after2 != expect:
                     fail("repeat", combo, f"second unlock of the same file in one process: {out2}", rec)
-                # (b) wrong passphrase
-                out, before, after = attempt(text, pw + "!")
-                evals += 1
-                if out == "ok" or after != before:
-                    fail("wrong-passphrase", combo, f"{out}; attr changed={after != before}", {**rec, "passphrase": pw + "!"})
+                # (b) wrong passphrases: an appended character, and every spelling a normalising reader would confuse with the right one
+                import unicodedata
+
+                wrongs = {pw + "!"} | {unicodedata.normalize(f_, pw) for f_ in ("NFC", "NFD", "NFKC", "NFKD")} | {pw.strip(), pw.lower(), pw.upper(), pw + " "}
+                for wpw in sorted(w_ for w_ in wrongs if w_.encode() != pw.encode()):
+                    out, before, after = attempt(text, wpw)
+                    evals += 1
+                    if out == "ok" or after != before:
+                        fail("wrong-passphrase", combo, f"{out}; attr changed={after != before}", {**rec, "passphrase": wpw})
                 # (c) single-byte alterations
                 if n in (14, 15, 16, 33) or tier == "thorough":
                     for which, b in (("pair", blob), ("data", data_blob)):
